@@ -772,7 +772,9 @@ extend('C06', 'Round 9: the limit handed to DataReader is the advertised '
 extend('C07', 'Round 9: steps handle() starts on its own initiative cannot '
        'be spelled as a verb; StopIteration is not raised inside a '
        'generator; per-recipient state of the edge session is set anew '
-       'where MAIL binds a fresh envelope.')
+       'where MAIL binds a fresh envelope; a delimiter that opens one arm '
+       'of a repeated alternation in the server\'s patterns is no ordinary '
+       'character of another arm.')
 extend('C08', 'Round 9: server-initiated steps are no verbs (= R7.11); a '
        'decoded SASL response is never tested for truth.')
 extend('C09', 'Round 9: one raw read per refill (= F11).')
